@@ -376,14 +376,20 @@ pub proof fn lemma_rd_setup(s: &Schedule, v: VehicleIdx)
         s.tours@[v].len() >= 3,
         s.tours@[v].network.has(s.tours@[v].nodes@[0]), s.tours@[v].network.has(s.tours@[v].nodes@[s.tours@[v].len() - 1]),
         s.tours@[v].nodes@[0] != s.tours@[v].nodes@[s.tours@[v].len() - 1],
+        // ... `sub_path(Segment::new(first_node, last_node))` yields nodes[0 ..= len - 1]: what Tour::new_dummy needs and
+        // makes of it (stated for this sub-range: in the body it is not identified with the node sequence itself, which
+        // would feed the sequence axioms)
         !all_depots(&s.tours@[v].network, s.tours@[v].nodes@.subrange(0, s.tours@[v].len() - 1 + 1)),
-        s.tours@[v].nodes@.subrange(0, s.tours@[v].len() - 1 + 1) == s.tours@[v].nodes@,
-        all_in_net(&s.network, s.tours@[v].nodes@), len_ok(s.tours@[v].nodes@),
+        all_in_net(&s.network, s.tours@[v].nodes@.subrange(0, s.tours@[v].len() - 1 + 1)),
+        len_ok(s.tours@[v].nodes@.subrange(0, s.tours@[v].len() - 1 + 1)),
+        has_service(&s.network, s.tours@[v].nodes@.subrange(0, s.tours@[v].len() - 1 + 1)) == s.needs_dummy(v),
+        svc_filter(&s.network, s.tours@[v].nodes@.subrange(0, s.tours@[v].len() - 1 + 1)) == svc_filter(&s.network, s.tours@[v].nodes@),
 {
     lemma_rd_provider(s, v);
     lemma_rd_all_ok(s, v);
     lemma_whole_tour(&s.tours@[v]);
     lemma_unlist(s.listing(s.type_of(v)), v);
+    assert(s.tours@[v].nodes@.subrange(0, s.tours@[v].len() - 1 + 1) == s.tours@[v].nodes@);
 }
 
 /// C13 "a vehicle left without activities disappears"
